@@ -336,7 +336,9 @@ def run_impl(prop, hbin, ops, seed, tier, crashes=None):
         data = [l for l in lines if not l.startswith("#")]
         if rc == 0 and len(data) == len(todo):
             return out_lines + lines
-        if rc in (0, 124) or crashes is None or ncrash >= 4 or len(data) >= len(todo):
+        if ncrash >= 4 and crashes and rc not in (0, 124):
+            return out_lines    # crashes everywhere: four concrete crashing cases are enough, the rest is not run
+        if rc in (0, 124) or crashes is None or len(data) >= len(todo):
             raise Broken("harness run failed rc=%d produced %d of %d lines" % (rc, len(out_lines) + len(data), nops),
                          err[-3000:] + "\nlast line: " + (data[-1] if data else ""))
         # the case that was executing when the process died
